@@ -28,7 +28,9 @@ EVAL = "internal/condition/eval"
 def c07(tier, seed):
     q = tier == "quick"
     # seed = the pinned per-process digest seed (keys.Seed); the real XXH64 is computed on the real key bytes
-    jobs = [J(CMDS, "VerifK07BatchCheck", max=2, idlen=1, conc=2, seed=7 + seed, timeout_ms=120000)]
+    jobs = [J(CMDS, "VerifK07BatchCheck", max=2, idlen=1, conc=2, seed=7 + seed, timeout_ms=120000),
+            # three items: duplicates interleaved with another item (A, B, A)
+            J(CMDS, "VerifK07BatchCheck", max=3, idlen=1, conc=2, seed=8 + seed, timeout_ms=120000, job_timeout_s=2400)]
     if not q:
         jobs.append(J(CMDS, "VerifK07BatchCheck", max=2, idlen=2, conc=1, seed=12345 + seed, timeout_ms=300000))
         jobs.append(J(CMDS, "VerifK07BatchCheck", max=3, idlen=2, conc=2, seed=99 + seed, timeout_ms=1500000))
@@ -77,6 +79,11 @@ SPEC = {
     },
     "C32": {
         "jobs": c32,
+        # Under the engine Server.Check / BatchCheck / ListUsers / StreamedListObjects are replaced by functions that
+        # assert the MAPPED request and answer from symbolic bits; natively the same harness runs a real server, which
+        # can confirm wrong decisions but not a wrongly mapped request. A counterexample is therefore reported from
+        # the engine run itself (the solver's model and the failed assertion), without the native confirmation step.
+        "replay": "engine",
         "level_text": "bounded symbolic execution of the real AuthZEN handlers (Evaluation, Evaluations incl. evaluateAll and evaluateWithShortCircuit, resolveEvalFields, buildCheckRequest, mergePropertiesToContext, SubjectSearch, ResourceSearch, objectCollector) with the native Check/BatchCheck/ListUsers/StreamedListObjects replaced by an arbitrary function of the mapped request (symbolic bits per mapped tuple; a bogus relation fails): the mapped request is <subject.type>:<subject.id> / action.name / <resource.type>:<resource.id> with item-level fields overriding top-level ones, its context is the prefixed subject/resource/action properties overlaid by the (item, else top-level) request context; decision i equals the native answer for mapped request i (index-faithful through BatchCheck correlation ids), native errors become deny + error context, deny_on_first_deny / permit_on_first_permit answer exactly the prefix up to the first deny / permit and issue exactly that many native checks; search results are exactly the native results re-typed (wildcard as id \"*\"). Natively (replay) the real server with a memory datastore, a real model and one tuple per true bit is used end to end",
         "level_note": "bounds: 0..2 (quick) / 3 evaluation items of 6 kinds (inherit all, own subject, own resource, own action, failing action, own resource+action+context), 4 semantics values, top-level context present/absent, 8 symbolic native answers; mapping harness: ids <= 2/4 symbolic ASCII bytes, every presence combination of properties/context and of overriding keys; searches: 4 symbolic native facts; request validation (regex) and HTTP status tables (NewEncodedError) replaced under the engine; trusted: engine semantics, z3",
         "assumptions": [
